@@ -978,6 +978,38 @@ func ruleSpell(c *Ctx) {
 			}
 		}
 	})
+	// decided by folding the canonicaliser with the token's Type() and Value() bound (switch, map or if-chain alike)
+	for tn, tv := range byName {
+		if tn != "SHARP" && tn != "FLAT" {
+			continue
+		}
+		for _, text := range []string{"♯", "♭", "#", "b", "x"} {
+			f := c.newFolder()
+			f.invoke = func(call *ssa.Call, args []fval) (fval, bool) {
+				switch call.Call.Method.Name() {
+				case "Type":
+					return fval{k: constant.MakeInt64(tv), t: types.Typ[types.Int]}, true
+				case "Value":
+					return fval{k: constant.MakeString(text), t: types.Typ[types.String]}, true
+				}
+				return top, false
+			}
+			r, err := f.foldCall(can, []fval{top})
+			if err != nil || r.k == nil || r.k.Kind() != constant.String {
+				delete(got, tn+"|folded")
+				break
+			}
+			res := constant.StringVal(r.k)
+			if prev, seen := got[tn+"|folded"]; seen && prev != res {
+				got[tn+"|folded"] = prev + "|" + res // depends on the text: not canonical
+			} else if !seen {
+				got[tn+"|folded"] = res
+			}
+		}
+		if v, ok := got[tn+"|folded"]; ok {
+			got[tn] = v
+		}
+	}
 	// consumer tables
 	understood := map[string]bool{}
 	if m, _, _ := c.mapTable("op", "map[op.Accidental]string", "accidentalStringMap"); m != nil {
